@@ -133,7 +133,15 @@ def run_op(case, seed):
     def V(oracle, detail, w=None):
         viol.append(dict(oracle=oracle, key=dict(site="mri.linop.Sense", when=w or when), detail=detail + " | " + str(case)))
     E = explicit_matrix(img, mps, coord, weights)
+    pristine = [None if a is None else a.copy() for a in (mps, coord, weights)]
+
+    def built_from_unchanged(tag):
+        for nm, a, p0 in zip(("mps", "coord", "weights"), (mps, coord, weights), pristine):
+            if a is not None and a.tobytes() != p0.tobytes():
+                V("built-from-array-mutated", "%s: the %s array the operator was built from was modified" % (tag, nm), "arrays the operator was built from")
+                a[...] = p0
     A0 = mr.linop.Sense(mps, coord=coord, weights=weights)
+    built_from_unchanged("construction (unbatched)")
     M0 = dense.dense_linop(A0)
     trans = M0.shape[1]
     if coord is None:
@@ -151,6 +159,7 @@ def run_op(case, seed):
     states = 1
     for bs in range(1, nc + 1):
         A = mr.linop.Sense(mps, coord=coord, weights=weights, coil_batch_size=bs)
+        built_from_unchanged("construction (coil_batch_size=%d)" % bs)
         states += 1
         if list(A.oshape) != list(A0.oshape) or list(A.ishape) != list(A0.ishape):
             V("batch-shapes", "coil_batch_size=%d: shapes %s->%s vs %s->%s" % (bs, A.ishape, A.oshape, A0.ishape, A0.oshape), "batch invariance")
@@ -163,6 +172,7 @@ def run_op(case, seed):
             V("batch-invariance", "coil_batch_size=%d: forward differs from the unbatched operator by %.3g" % (bs, e1), "batch invariance")
         if not e2 <= 1e-12:
             V("batch-invariance", "coil_batch_size=%d: adjoint differs from the unbatched operator by %.3g" % (bs, e2), "batch invariance")
+        built_from_unchanged("application (coil_batch_size=%d)" % bs)
         # real-dtype image must give the same result as the same values in complex dtype
         xr = np.real(dense.dense_vec(M.shape[1], 3)).reshape(img)
         try:
